@@ -2,7 +2,7 @@
 function from the weakest state the API contract allows (DESIGN.md 4, C01)."""
 from engine import build, irload, runner
 from engine.contracts import API, LibHooks, check_exit, check_span_out
-from engine.common import need
+from engine.common import need, AnalysisBroken
 
 PARSER_FNS = [f for f, k in API.items() if k[0] == 'P' and f != 'binson_parser_to_writer']
 KINDS = ('MEM-R', 'MEM-W', 'REGION-W', 'INV-J', 'CALL-IND', 'EXTERN', 'FORMAT')
@@ -59,8 +59,12 @@ def analyse_config(rep, sc, tag, defs, target, fns=None):
     for f in todo:
         for lb in runner.labels_for(mod, f):
             tasks.append((f, lb, {'compact': COMPACT, 'weight': runner.WEIGHT.get(f, 1)}))
-    results = runner.run(mod, tasks, hooks_cls=LibHooks, post=post)
-    return mod, todo, results
+    results = runner.run(mod, tasks, hooks_cls=LibHooks, post=post, tolerate=True)
+    failed = [r for r in results if not r['ok']]
+    # an entry whose analysis broke down (does not converge within the task budget, unmodelled construct) is no verdict; it
+    # only stops the check when no other entry has found a violation
+    rep.coverage.setdefault('entries_not_analysed', []).extend('%s[%s] %s: %s' % (r['fn'], r['label'], tag, r['error'][:160]) for r in failed)
+    return mod, todo, [r for r in results if r['ok']]
 
 
 def run(rep, tier):
@@ -80,7 +84,15 @@ def run(rep, tier):
                 for (fn, head, info) in r['loops']:
                     loops.setdefault(fn, []).append(info['rounds'])
             rep.coverage.setdefault('loops', {})[tag] = {k: {'analyses': len(v), 'max_widening_rounds': max(v)} for k, v in loops.items()}
-    need(rep.obligations >= MIN_OBLIGATIONS, 'C01: only %d obligations generated (expected >= %d)' % (rep.obligations, MIN_OBLIGATIONS))
+    skipped = rep.coverage.get('entries_not_analysed') or []
+    if skipped:
+        if not rep.violations:
+            raise AnalysisBroken('C01: %d entries could not be analysed, first: %s' % (len(skipped), skipped[0]))
+        print('NOTE C01: %d entries could not be analysed on this tree (%s); the violations found in the other entries stand' % (len(skipped), skipped[0][:200]))
+        rep.assumptions.append('%d entries could not be analysed on this tree' % len(skipped))
+    else:
+        rep.coverage.pop('entries_not_analysed', None)
+        need(rep.obligations >= MIN_OBLIGATIONS, 'C01: only %d obligations generated (expected >= %d)' % (rep.obligations, MIN_OBLIGATIONS))
     rep.coverage.update({
         'configurations': [c[0] for c in cfgs],
         'entries': entries,
